@@ -262,6 +262,10 @@ inline bool drop_F(Rng& r, uint64_t idx)
   // have been reported when the backend thread ends
   bool const no_wait_at_exit = r.chance(1, 5);
   w.bo.wait_for_queues_to_empty_before_exit = !no_wait_at_exit;
+  // ... half of those with a late, short-lived thread whose whole life falls into one idle sleep of the backend: the
+  // backend has never seen it when stop() is called
+  bool const late_thread = no_wait_at_exit && r.chance(1, 2);
+  if (late_thread) w.bo.sleep_duration = std::chrono::milliseconds{150};
   make_topology(w, r, 2, 2);
   if (r.chance(1, 2)) w.sinks[0]->slow_us.store(static_cast<uint32_t>(r.pick({10, 60})));
   g_delay.store(static_cast<uint32_t>(r.pick({0, 1, 2})));
@@ -295,6 +299,27 @@ inline bool drop_F(Rng& r, uint64_t idx)
                            });
   }
   for (auto& t : ts) t.th.join();
+  if (late_thread)
+  {
+    // let the backend drain and fall asleep, then a thread that floods its queue and is gone before the backend wakes up
+    uint64_t const mark = g_idle_cycles.load();
+    for (int spin = 0; spin < 400 && g_idle_cycles.load() < mark + 2; ++spin) std::this_thread::sleep_for(std::chrono::milliseconds(1));
+    std::this_thread::sleep_for(std::chrono::milliseconds(2));
+    ts.emplace_back();
+    T& lt = ts.back();
+    uint32_t const ltid = nt + 1;
+    lt.th = std::thread([&w, &lt, ltid]
+                        {
+                          lt.os_tid = static_cast<uint32_t>(syscall(SYS_gettid));
+                          for (uint32_t s = 0; s < 120; ++s)
+                          {
+                            bool threw;
+                            log_maybe_throw(lt.issues, w.loggers[0].lg, 0, ltid, s, 60, threw);
+                          }
+                        });
+    lt.th.join();
+    stat_add("drop_scenarios_with_a_thread_the_backend_never_saw_before_stop");
+  }
   quill::Backend::stop();
   g_delay.store(0);
   std::vector<Issue> all;
@@ -316,7 +341,7 @@ inline bool drop_F(Rng& r, uint64_t idx)
       size_t p = n.second.find("Dropped ");
       if (p != std::string::npos && sscanf(n.second.c_str() + p, "Dropped %lu log messages from thread %lu", &cnt, &t) == 2) reported[static_cast<uint32_t>(t)] += cnt;
     }
-    for (uint32_t t = 0; t < nt; ++t)
+    for (size_t t = 0; t < ts.size(); ++t)
       for (auto const& is : ts[t].issues)
         if (is.kind == 0 && is.res == 0) expected[ts[t].os_tid] += 1;
     std::set<uint32_t> tids;
@@ -326,7 +351,7 @@ inline bool drop_F(Rng& r, uint64_t idx)
       if (reported[t] != expected[t])
       {
         violation("C08", reported[t] < expected[t] ? "dropped-statements-not-reported" : "more-drops-reported-than-happened",
-                  J{}.unum("os_thread", t).unum("reported", reported[t]).unum("discarded", expected[t]).str("scenario", "drop_F").raw("cfg", w.describe()));
+                  J{}.unum("os_thread", t).unum("reported", reported[t]).unum("discarded", expected[t]).boolean("stopped_without_waiting_for_the_queues", no_wait_at_exit).unum("threads", nt).str("scenario", "drop_F").raw("cfg", w.describe()));
         ok = false;
         break;
       }
